@@ -12,8 +12,12 @@ var (
 	IntDomain   = []int{-3, -2, -1, 0, 1, 2, 3, 4, 5, 7, 8, 64, math.MinInt64, math.MaxInt64}
 	NaN2        = math.Float64frombits(0x7ff8000000000001 | 0xdead<<8) // NaN with another payload
 	FloatDomain = []float64{math.NaN(), NaN2, 0, math.Copysign(0, -1), 0.5, -0.5, 1, -1, 2, 2.5, -2.5, 3,
-		math.Inf(1), math.Inf(-1), 5e-324, math.MaxFloat64, 1e21, 1e22, 0.1, 100}
-	StrDomain = []string{"", "a", "b", "ab", "A", "B", "aB", "abc", "ä", "\x00", "a b", "b%", "Ab", "c", "ba", "ıx", "ɐb", "aſ"}
+		math.Inf(1), math.Inf(-1), 5e-324, math.MaxFloat64, 1e21, 1e22, 0.1, 100,
+		// exactly representable as float32 but not short in decimal
+		float64(float32(0.1)), float64(float32(1) / 3), math.MaxFloat32, float64(float32(16777217.5))}
+	StrDomain = []string{"", "a", "b", "ab", "A", "B", "aB", "abc", "ä", "\x00", "a b", "b%", "Ab", "c", "ba", "ıx", "ɐb", "aſ",
+		// strings of 8 bytes and more that differ at several of their first positions
+		"2021-01-15", "2020-12-24", "2021-10-05x", "abcdefgh", "abcdefgi", "bacdefgh", "abcdefg", "hgfedcba"}
 )
 
 // RowsSmall is the default row count distribution: size classes rather than uniform.
@@ -41,7 +45,11 @@ func GenInt(t *rapid.T) int {
 // pattern.
 func GenFloat(t *rapid.T, wide bool) float64 {
 	if wide && rapid.IntRange(0, 4).Draw(t, "fw") == 0 {
-		return math.Float64frombits(rapid.Uint64().Draw(t, "fbits"))
+		f := math.Float64frombits(rapid.Uint64().Draw(t, "fbits"))
+		if rapid.IntRange(0, 3).Draw(t, "f32") == 0 && !math.IsNaN(f) && math.Abs(f) < math.MaxFloat32 {
+			f = float64(float32(f)) // a float64 that came from a float32
+		}
+		return f
 	}
 	if rapid.IntRange(0, 2).Draw(t, "fk") == 0 {
 		return rapid.SampledFrom(FloatDomain).Draw(t, "f")
